@@ -359,7 +359,28 @@ func ivalHandler(args []string) (string, []string) {
 		if err != nil {
 			return "err", nil
 		}
-		return "ok " + showIvs(l), nil
+		// "an interval text whose end is before its start is rejected" — also inside a list
+		for _, i := range l {
+			if i != nil && i.Start > i.End {
+				ps.add("C13", "text=%q is accepted by %s with the interval %s whose end is before its start", s, args[0], showIv(i))
+				break
+			}
+		}
+		// and every interval of an accepted list is what the single-interval parser makes of its token
+		if toks := strings.Split(s, " "); len(toks) == len(l) {
+			for k, tok := range toks {
+				one, e1 := interval.ParseInterval(tok)
+				if e1 != nil {
+					ps.add("C13", "text=%q is accepted by %s although its token %q is rejected on its own", s, args[0], tok)
+					break
+				}
+				if args[0] == "parselist" && l[k] != nil && *one != *l[k] {
+					ps.add("C13", "text=%q: token %q is %s on its own but %s inside the list", s, tok, showIv(one), showIv(l[k]))
+					break
+				}
+			}
+		}
+		return "ok " + showIvs(l), ps.out()
 	}
 	return "bad-request", nil
 }
@@ -403,6 +424,20 @@ func checkNormalize(ps *propSink, req string, orig, after, r interval.IntervalLi
 	dup := append(cloneIvs(orig), cloneIvs(orig)...)
 	if r4, err := dup.Normalize(); err != nil || !equalIvs(r4, r) {
 		ps.add("C05", "list=%s result=%s but the list written twice gives %s err=%v", req, showIvs(r), showIvs(r4), err)
+	}
+	// duplicates that are the SAME object (aliased elements), next to each other and apart
+	c := cloneIvs(orig)
+	adj := make(interval.IntervalList, 0, 2*len(c))
+	for _, e := range c {
+		adj = append(adj, e, e)
+	}
+	if r6, err := adj.Normalize(); err != nil || !equalIvs(r6, r) {
+		ps.add("C05", "list=%s result=%s but with every interval listed twice in a row as the same object (aliased) gives %s err=%v", req, showIvs(r), showIvs(r6), err)
+	}
+	c2 := cloneIvs(orig)
+	apart := append(append(interval.IntervalList{}, c2...), c2...)
+	if r7, err := apart.Normalize(); err != nil || !equalIvs(r7, r) {
+		ps.add("C05", "list=%s result=%s but the list followed by the same objects again (aliased) gives %s err=%v", req, showIvs(r), showIvs(r7), err)
 	}
 	sorted := cloneIvs(orig)
 	sort.SliceStable(sorted, func(i, j int) bool {
@@ -461,6 +496,30 @@ func checkIntersection(ps *propSink, req string, orig, after []interval.Interval
 		}
 		if r3, err := interval.IntersectionOfSomeIntervalLists(rot...); err != nil || !equalIvs(r3, r) {
 			ps.add("C04", "operands=%s result=%s but with operands rotated %s err=%v", req, showIvs(r), showIvs(r3), err)
+		}
+	}
+	// aliased operands: the first operand passed once more as the very same list, and an operand whose
+	// intervals are each listed twice in a row as the same object
+	{
+		cl := make([]interval.IntervalList, n, n+1)
+		for k := range orig {
+			cl[k] = cloneIvs(orig[k])
+		}
+		cl = append(cl, cl[0])
+		if r4, err := interval.IntersectionOfSomeIntervalLists(cl...); err != nil || !equalIvs(r4, r) {
+			ps.add("C04", "operands=%s result=%s but with the first operand passed once more as the same list (aliased) %s err=%v", req, showIvs(r), showIvs(r4), err)
+		}
+		cl2 := make([]interval.IntervalList, n)
+		for k := range orig {
+			cl2[k] = cloneIvs(orig[k])
+		}
+		adj := make(interval.IntervalList, 0, 2*len(cl2[0]))
+		for _, e := range cl2[0] {
+			adj = append(adj, e, e)
+		}
+		cl2[0] = adj
+		if r5, err := interval.IntersectionOfSomeIntervalLists(cl2...); err != nil || !equalIvs(r5, r) {
+			ps.add("C04", "operands=%s result=%s but with every interval of the first operand listed twice in a row as the same object %s err=%v", req, showIvs(r), showIvs(r5), err)
 		}
 	}
 	// grouping: ((A ∩ B) ∩ rest)
